@@ -161,6 +161,11 @@ def _xh_sqlite_delete_records(cursor, size_to_keep):
     if not result:
         return
     max_tsb = result[0]
+    if max_tsb is None:
+        # ``LIMIT 0`` (nothing is to be kept) or an empty table: min() is
+        # NULL and ``tsb < NULL`` would match no row at all.
+        result = cursor.execute(f"DELETE FROM {XH_SQLITE_TABLE_NAME}")
+        return result.rowcount
     sql = f"DELETE FROM {XH_SQLITE_TABLE_NAME} WHERE tsb < ?"
     result = cursor.execute(sql, (max_tsb,))
     return result.rowcount
